@@ -13,7 +13,10 @@
 (*   MutRes     every attempt to change an enum or a member after construction is refused (TypeError)         *)
 (*                                                                                                          *)
 (* S (a set of switch names) selects, operator by operator, between what the documentation / obvious intent   *)
-(* promises (S = {}) and what the pinned code does:                                                          *)
+(* promises (S = {}) and what the code did when this module was written.  FloatTrunc, PowMember and             *)
+(* ReservedName have been repaired since (f02e183, ca45173, 9899e9c): their switches stay as the exact          *)
+(* description of the regression - an execution that needs one is a VIOLATION; "Mutable" is still what the      *)
+(* code does (open finding, recorded and not repaired: drivers may rely on nameless enums being changeable):    *)
 (*   "FloatTrunc"    __cmp__ converts the other operand with int(): a float is truncated, member(1) == 1.5     *)
 (*   "Mutable"       only __setitem__/__setattr__/__delitem__ are guarded and only while the display name is   *)
 (*                   non-empty: dict mutators (clear, pop, popitem, update, setdefault, |=) and del e.name /   *)
